@@ -1,6 +1,6 @@
 """E2 — CFG path rules: alias tracking of a destination view, must-write summaries,
 degenerate-size guards, error returns (DESIGN §3/E2)."""
-from ..cfg import find_path, reachable_from
+from ..cfg import find_path, find_path_consistent, reachable_from
 from ..sym import Sym, fmt, short
 
 # leaf write events: obtaining mutable rows / mutable parts of the destination
@@ -299,7 +299,7 @@ class MustWrite:
                         blocked_edges.add((p_, s_))
         err_blocks = error_return_blocks(fn)
         rets = fn.returns()
-        path = find_path(fn, 0, rets, blocked=err_blocks, blocked_edges=blocked_edges)
+        path = find_path_consistent(fn, 0, rets, blocked=err_blocks, blocked_edges=blocked_edges)
         if path is None:
             return (True, [])
         # a callee that does not always write is not a write event, but it is the place to
@@ -311,7 +311,7 @@ class MustWrite:
             for b in list(unknown_blocks):
                 for s_ in fn.succ[b]:
                     be2.add((b, s_))
-            p2 = find_path(fn, 0, rets, blocked=err_blocks, blocked_edges=be2)
+            p2 = find_path_consistent(fn, 0, rets, blocked=err_blocks, blocked_edges=be2)
             if p2 is None:
                 return (None, on_path_unknown)
             path = p2
